@@ -4,7 +4,8 @@ Enumeration + fault enumeration on the real lib/lpc/object.c / mapping.c through
 save_object, restore_object (C entry points and efuns), with the interposed libc file layer env/fs.c:
   names   save-file name handling ("", 1-character names, .c/.o suffixes)
   chain   nesting chains of each container kind at 1, 2, limit-2 .. limit+2, 2*limit (limit = MAX_SAVE_SVALUE_DEPTH)
-  leaves  13+1 ints, 6 floats, 513 strings (every byte 1..255 alone and as a?b, mixed escapes, empty, UTF-8) x 9 contexts,
+  leaves  13+1 ints, 6 floats, 513 strings (every byte 1..255 alone and as a?b, mixed escapes, empty, UTF-8), an object
+          reference x 9 contexts,
           C entry points + efuns + save_object(0/1)/restore_object with static, inherited-static and object-valued variables
   struct  every value of {leaf | array 0..2 | mapping 0..2 | class 1..2}: thorough: depth 3 over 2 leaves (10 036 970
           values), variable and object round trip; quick: depth 2 over 2 leaves (1 828 values) likewise, and depth 3 over
